@@ -11,6 +11,11 @@ S3 ties (harness/c08_rangecoder.c vs. OpusModel.RangeCoder through Driver.SuiteR
   rangecoder-codes     harness/c08_codes.c: ec_laplace_encode/decode and encode_pulses/decode_pulses through the real
                        range coder, mixed with plain calls (model: OpusModel.RangeCoderCodes): written-back Laplace
                        values, final encoder state, buffer, every decoded value, final decoder state
+  rangecoder-silkframe harness/c08_silksyms.c: CHOSEN indices / pulses through the real silk_encode_indices + silk_encode_pulses
+                       (state set up by the real silk_InitEncoder + silk_control_encoder) and the real range coder, read back
+                       by the real silk_decode_indices + silk_decode_pulses; model: OpusModel.SilkSymsEnc (encoder side, C08)
+                       against OpusModel.SilkSyms (C03's decoder model): coder state after the frame and after ec_enc_done,
+                       buffer, every decoded index and pulse, final decoder state
 S4 search: the property predicates evaluated on the implementation alone (harness modes `search` / `prop`):
   P1 round trip when the encoder reports no error, P2 tell/tell_frac bounds, monotonicity, range invariant and
   encoder/decoder agreement, P3 guard bytes and bytes beyond the current storage untouched, P4 tell <= 8*storage
@@ -19,16 +24,19 @@ import glob, os, re, subprocess
 import common
 
 LEAN_MODULES = ['OpusProps.C08']
-GEN = ['CeltTables']   # the PVQ table and LAPLACE_* constants used by laplace_pvq_roundtrip (extractor shared with C17)
+GEN = ['CeltTables', 'SilkEncBits']   # SilkEncBits: encoder-only SILK tables (rate-level bit costs, shell limits); the PVQ table and LAPLACE_* constants used by laplace_pvq_roundtrip (extractor shared with C17)
 SOURCES = ['celt/entenc.c', 'celt/entdec.c', 'celt/entcode.c', 'celt/entcode.h', 'celt/entenc.h', 'celt/entdec.h',
            'celt/mfrngcod.h', 'celt/ecintrin.h', 'celt/arch.h', 'celt/laplace.c', 'celt/laplace.h', 'celt/cwrs.c', 'celt/cwrs.h',
            'celt/quant_bands.c', 'celt/rate.c', 'celt/rate.h', 'celt/modes.c', 'celt/static_modes_float.h',
-           'silk/enc_API.c', 'silk/dec_API.c']
+           'silk/enc_API.c', 'silk/dec_API.c', 'silk/encode_indices.c', 'silk/encode_pulses.c', 'silk/shell_coder.c',
+           'silk/code_signs.c', 'silk/stereo_encode_pred.c', 'silk/NLSF_unpack.c', 'silk/decode_indices.c', 'silk/decode_pulses.c',
+           'silk/tables_pulses_per_block.c', 'silk/tables_other.c', 'silk/tables_gain.c', 'silk/tables_pitch_lag.c', 'silk/tables_LTP.c',
+           'silk/tables_NLSF_CB_NB_MB.c', 'silk/tables_NLSF_CB_WB.c', 'silk/control_codec.c', 'silk/decoder_set_fs.c', 'silk/define.h']
 REQUIRED_THEOREMS = ['OpusProps.C08.rng_normalised', 'OpusProps.C08.tell_frac_bounds', 'OpusProps.C08.tell_frac_formula',
                      'OpusProps.C08.tell_monotone', 'OpusProps.C08.decode_encode', 'OpusProps.C08.lockstep_rng',
                      'OpusProps.C08.decode_encode_patched', 'OpusProps.C08.done_within_budget',
                      'OpusProps.C08.outside_untouched', 'OpusProps.C08.lockstep_symbols', 'OpusProps.C08.silk_flags_roundtrip', 'OpusProps.C08.laplace_pvq_roundtrip',
-                     'OpusProps.C08.tell_contracts', 'OpusProps.C08.bytes_below_tell']
+                     'OpusProps.C08.tell_contracts', 'OpusProps.C08.bytes_below_tell', 'OpusProps.C08.silk_syms_roundtrip_frame']
 UNPROVED = []
 RULE = ('op sequences of length 1..4000 over all nine operation kinds (ec_encode, ec_encode_bin, ec_enc_bit_logp, ec_enc_icdf, '
         'ec_enc_icdf16, ec_enc_uint, ec_enc_bits, ec_enc_patch_initial_bits, ec_enc_shrink) drawn from the seed by a '
@@ -79,6 +87,7 @@ TECHNIQUE = 'Lean 4 theorems on an executable range-coder model + state-by-state
 QUICK_SEQ, THOROUGH_SEQ = 20000, 300000
 QUICK_SEARCH, THOROUGH_SEARCH = 60000, 1000000
 QUICK_CODES, THOROUGH_CODES = 6000, 120000
+QUICK_SFRAME, THOROUGH_SFRAME = 3000, 60000
 PENDING_FF = 'carry-pending 0xFF'
 
 
@@ -124,6 +133,9 @@ def ties(ctx):
     hc = ctx.harness('c08_codes', ['c08_codes.c'], variant='san')
     out.append(_tidy(common.run_tie('rangecoder-codes', [hc, 'rand', str(ctx.seed), str(QUICK_CODES if ctx.quick else THOROUGH_CODES)]),
                      'rangecoder:cseq:line'))
+    hs = ctx.harness('c08_silksyms', ['c08_silksyms.c'], variant='san')
+    out.append(_tidy(common.run_tie('rangecoder-silkframe', [hs, 'rand', str(ctx.seed), str(QUICK_SFRAME if ctx.quick else THOROUGH_SFRAME)]),
+                     'rangecoder:sframe:line'))
     return out
 
 
